@@ -172,6 +172,31 @@ equals the number of entries reachable by iteration. -/
 theorem len_eq_reachable_when_quiescent {H : Hashes} {m : SegMap V} (inv : SegInv H m) :
     m.len = (m.reachable : Int) := len_eq_reachable inv
 
+/-- **Iteration under concurrent writers** (`ForEach`, used by Purge and the
+sweeps).  `ms i` is the table at the moment segment `i` is read-locked;
+writers may do anything in between.  The sweep delivers exactly the pairs
+stored in their home segment at the moment that segment is read: every entry
+that is present and untouched during the sweep is visited, nothing that was
+not stored is delivered; with no writer it is `toList`. -/
+theorem foreach_covers_stable_entries {H : Hashes} (hH : HashOk H) (n : Nat) (ms : Nat → SegMap V)
+    (hinv : ∀ i, i < n → SegInv H (ms i) ∧ (ms i).segs.size = n) (k : Nat) (v : V) :
+    ((k, v) ∈ SegMap.sweep n ms ↔ (0 < n ∧ sabs H (ms (H.seg n k)) k = some v)) ∧
+    (∀ m : SegMap V, SegMap.sweep m.segs.size (fun _ => m) = m.toList) :=
+  ⟨sweep_spec hH n ms hinv k v, sweep_const⟩
+
+/-- `PutIfNotExists` and `ClearSegment` of the segmented table refine the
+abstract map and keep the counter exact. -/
+theorem segmap_pine_clearseg {H : Hashes} (hH : HashOk H) {m : SegMap V} (inv : SegInv H m) (k : Nat) (v : V) (i : Nat) :
+    (SegInv H (m.putIfNotExists H k v).1 ∧
+      (∀ k', sabs H (m.putIfNotExists H k v).1 k' = if k' = k then some ((sabs H m k).getD v) else sabs H m k') ∧
+      (m.putIfNotExists H k v).2.2 = (sabs H m k).isNone ∧
+      (m.putIfNotExists H k v).1.len = m.len + (if (sabs H m k).isSome then 0 else 1)) ∧
+    (SegInv H (m.clearSegment i) ∧
+      (∀ k, sabs H (m.clearSegment i) k = if SegMap.segOf H m k = i ∧ i < m.segs.size then none else sabs H m k)) := by
+  obtain ⟨p1, p2, _, p4, p5⟩ := seg_pine_spec hH inv k v
+  obtain ⟨c1, c2, _⟩ := seg_clearSegment_spec hH inv i
+  exact ⟨⟨p1, p2, p4, p5⟩, ⟨c1, c2⟩⟩
+
 /-! ## cache.Cache -/
 
 section cache
@@ -239,18 +264,62 @@ theorem occupancy_le_cap_plus_writers_partial (cap : Int) (s t : CState) (h : CR
     (h0 : s.count ≤ cap + s.owing) : t.count ≤ cap + t.owing :=
   creach_bound cap s t h h0
 
+/-- **Every interleaving of lock-atomic sections.** `IStep` is one critical
+section on one segment (any of put / put-if-absent / delete / evict / clear,
+with any key of that segment, any quota, any over-capacity verdict) that
+either adjusts the atomic counter by exactly its size change (`secAdd`) or
+defers that adjustment to a later atomic add (`secDefer` … `flush`: the spill
+evictions of `SetWithCap`, `ClearSegment`).  Along EVERY sequence of such
+steps by any number of threads the per-segment invariants hold (no ghost, no
+duplicate, keys in their home segment) and `counter = entries + pending`;
+hence whenever no thread has an adjustment pending — once writers stop — the
+reported length equals the number of reachable entries. -/
+theorem len_eq_reachable_all_interleavings {H : Hashes} (hH : HashOk H) {m0 : SegMap V} (inv0 : SegInv H m0)
+    (threads : Nat) {st : CSt V} (h : IReach H ⟨m0, List.replicate threads 0⟩ st)
+    (hq : ∀ t, st.pend.getD t 0 = 0) :
+    SegInv H st.m ∧ st.m.len = (st.m.reachable : Int) :=
+  ireach_quiescent hH inv0 threads h hq
+
+/-- The model's own operations are such steps: `Set` and `Del` are one
+section each, one spill eviction of `SetWithCap` is a deferred section
+followed by its flush. -/
+theorem ops_are_interleaving_steps {H : Hashes} (hH : HashOk H) {m : SegMap V} (inv : SegInv H m)
+    (k : Nat) (v : V) (pend : List Int) :
+    IStep H ⟨m, pend⟩ ⟨m.set H k v, pend⟩ ∧ IStep H ⟨m, pend⟩ ⟨(m.del H k).1, pend⟩ ∧
+    ∀ j offset n skip t, j < m.segs.size → t < pend.length → pend.getD t 0 = 0 →
+      ∃ mid, IStep H ⟨m, pend⟩ mid ∧ IStep H mid ⟨evictSeg H m j offset n skip, pend⟩ :=
+  ⟨set_is_step hH inv k v pend, del_is_step hH inv k pend,
+   fun j offset n skip t hj ht h0 => spill_is_two_steps hH inv j offset n skip t hj pend ht h0⟩
+
 /-! ## LimiterStore -/
 
-/-- `LimiterStore.Get` keeps the store within `maxSize` (at least one entry),
-stores the requested key, and the entry it evicts (chosen before the insert)
-is never that key. -/
-theorem limiter_store_bounded (s : Lim) (k : Nat) (victim : Option Nat)
-    (hb : s.keys.length ≤ max s.maxSize 1)
-    (hv : s.maxSize ≤ s.keys.length → s.keys ≠ [] → ∃ w, victim = some w ∧ w ∈ s.keys) :
-    (s.get k victim).keys.length ≤ max s.maxSize 1 ∧ k ∈ (s.get k victim).keys ∧
-    ∀ k', k' ∈ s.keys → k' ∈ (s.get k victim).keys ∨ (some k' = victim ∧ k' ≠ k) := by
-  obtain ⟨h1, h2, _, h4⟩ := lim_get_spec s k victim hb hv
+/-- **Limiter store.** `LimiterStore.Get` (lookup-or-create with the trim
+BEFORE the insert) keeps the store duplicate-free and within `max maxSize 1`,
+stores the requested key with the current time, never evicts that key, and
+evicts at most one other key.  `evictOne` is modelled, not assumed: up to 1000
+entries there is no hypothesis at all; above 1000 the only hypothesis is that
+the map iteration's first key (`first`) is a stored key. -/
+theorem limiter_store_bounded (s : Lim) (k now : Nat) (first : Option Nat) (inv : LimInv s)
+    (hfirst : 1000 < s.ents.length → ∃ w, first = some w ∧ w ∈ s.keys) :
+    LimInv (s.get k now first) ∧ (k, now) ∈ (s.get k now first).ents ∧
+    ∃ victim : Option Nat, victim ≠ some k ∧
+      ∀ k', k' ∈ s.keys → k' ∈ (s.get k now first).keys ∨ victim = some k' := by
+  obtain ⟨h1, h2, _, h4⟩ := lim_get_spec s k now first inv hfirst
   exact ⟨h1, h2, h4⟩
+
+/-- `evictOne` on a non-empty store always removes exactly one stored entry
+(whatever the limiters' token buckets or cookies hold: they are not part of the
+decision); up to 1000 entries it is the least recently seen one. -/
+theorem limiter_evicts_one_oldest_first (s : Lim) (first : Option Nat) (hn : s.keys.Nodup) (hne : s.ents ≠ [])
+    (hfirst : 1000 < s.ents.length → ∃ w, first = some w ∧ w ∈ s.keys) :
+    ∃ w, w ∈ s.keys ∧ s.evictOne first = s.remove w ∧ (s.evictOne first).ents.length + 1 = s.ents.length ∧
+      (s.ents.length ≤ 1000 → ∃ t, (w, t) ∈ s.ents ∧ ∀ e ∈ s.ents, t ≤ e.2) :=
+  evictOne_spec s first hn hne hfirst
+
+/-- `Cleanup` keeps exactly the entries seen at or after the cutoff (and the invariant). -/
+theorem limiter_cleanup (s : Lim) (cutoff : Nat) (inv : LimInv s) :
+    LimInv (s.cleanup cutoff) ∧ ∀ e, e ∈ (s.cleanup cutoff).ents ↔ e ∈ s.ents ∧ cutoff ≤ e.2 :=
+  lim_cleanup_spec s cutoff inv
 
 /-! ## facts regenerated from the tree -/
 
@@ -306,9 +375,22 @@ example : SegInv realHashes ((SegMap.new 4 0 : SegMap Nat).setWithCap realHashes
 example : ((SegMap.new 4 0 : SegMap Nat).set realHashes 1 1 |>.set realHashes 2 2).lockTrace realHashes 3 3 1 ≠
     [SegMap.segOf realHashes (SegMap.new 4 0 : SegMap Nat) 3] := by decide
 
+-- two threads: one Set section, then a deferred eviction and its flush; quiescent again
+example : IReach realHashes (⟨SegMap.new 4 0, [0, 0]⟩ : CSt Nat)
+    ⟨(SegMap.new 4 0 : SegMap Nat).set realHashes 1 10, [0, 0]⟩ :=
+  IReach.step (IReach.refl _)
+    ((ops_are_interleaving_steps realHashes_ok (segmap_new_spec realHashes 4 0).1 1 10 [0, 0]).1)
+
 example : CReach 2 ⟨2, 0⟩ ⟨2, 0⟩ ∧ CReach 2 ⟨2, 0⟩ ⟨3, 1⟩ :=
   ⟨CReach.refl _, CReach.step (CReach.refl _) (CStep.insert ⟨2, 0⟩ true)⟩
 
-example : (Lim.get ⟨[1, 2], 2⟩ 3 (some 1)).keys = [3, 2] := by decide
+-- a full store: key 1 was seen last at time 5, key 2 at time 9 -> the miss on 3 evicts key 1
+example : (Lim.get ⟨[(2, 9), (1, 5)], 2⟩ 3 10 none).keys = [3, 2] := by decide
+example : LimInv ⟨[(2, 9), (1, 5)], 2⟩ := ⟨by decide, by decide⟩
+example : (Lim.cleanup ⟨[(2, 9), (1, 5)], 2⟩ 6).keys = [2] := by decide
+
+-- a sweep during which a writer inserts key 2 into a not yet visited segment still visits what was there
+example : (1, 10) ∈ SegMap.sweep 16 (fun i => if i ≤ 3 then (SegMap.new 4 0 : SegMap Nat).set realHashes 1 10
+    else ((SegMap.new 4 0 : SegMap Nat).set realHashes 1 10).set realHashes 2 20) := by decide
 
 end SdnsVerif.Props.C16
